@@ -148,6 +148,16 @@ def _structured(tier):
     cases.append(T(f's{i}', eq, integ, stack, grid, layers, steps, dtm,
                    inner=2 if i in (3, 8) else 1, swi=i in (5, 10), oro=i != 3,
                    tref=('constant', 'linear', 'tropopause', 'random')[i % 4]))
+  # non-default options of the equation classes (public dataclass fields): no vertical advection,
+  # first-order upwind vertical advection -- the structural invariants do not depend on them
+  c = T('opt0', 'dry', 'imex_rk_sil3', 'exp', g(10, 'quadratic', 'real'), 4, 10, 12, tref='linear')
+  c['eq_opts'] = {'include_vertical_advection': False}
+  c['id'] += '-novadv'
+  cases.append(c)
+  c = T('opt1', 'time', 'crank_nicolson_rk3', 'none', g(10, 'quadratic', 'fast', 4), 5, 10, 12, tref='random')
+  c['eq_opts'] = {'vertical_advection': 'upwind'}
+  c['id'] += '-upwind'
+  cases.append(c)
   if tier == 'thorough':
     more = [
         ('moist', 'imex_rk_sil3', 'exp', g(31, 'quadratic', 'fast', 8), 8, 50, 8),
@@ -351,7 +361,13 @@ def _build(case, M, rng):
           rng, grid, (), lmin=Lt, lmax=Lt)).astype(dtype)
       w['oro_top'] = True
     tref = model.tref_profile(rng, K, case['tref'], centers=coords.vertical.centers)
-    eq = model.make_eq(case['eq'], tref.astype(dtype), oro, coords, specs)
+    opts = dict(case.get('eq_opts') or {})
+    if opts.get('vertical_advection') == 'upwind':
+      from dinosaur import sigma_coordinates as sigc  # pylint: disable=import-outside-toplevel
+      opts['vertical_advection'] = sigc.upwind_vertical_advection
+    if opts:
+      M.cover('equation_options', ','.join(sorted(case['eq_opts'])))
+    eq = model.make_eq(case['eq'], tref.astype(dtype), oro, coords, specs, **opts)
     w.update(has_uniform=True, has_time=with_time, sw=False, boundaries=bnd.tolist())
   # ---- filters
   stack = case['stack']
